@@ -82,6 +82,8 @@ class PathCtx:
         self.lifted_cache = {}
         self.model = None
         self._cand_model = None
+        self.path_deadline = None
+        self._tick = 0
 
     # ---- symbols -------------------------------------------------------
     def _new_name(self, name):
@@ -264,6 +266,11 @@ class PathCtx:
                 return v
         raise Unwound("integer %s outside [%d,%d] at %s" % (t, lo, hi, site))
 
+    def watchdog(self):
+        self._tick += 1
+        if self._tick & 63 == 0 and self.path_deadline is not None and time.time() > self.path_deadline:
+            raise Unwound("path wall-clock budget exhausted (a loop without symbolic decisions?)")
+
     def loop_tick(self, site, k=1):
         n = self.site_count.get(("loop", site), 0) + k
         self.site_count[("loop", site)] = n
@@ -288,7 +295,7 @@ class PathResult:
 
 
 def explore(fn, unwind=3, max_paths=200, max_decisions=60, feas_timeout_ms=3000, stats=None, max_forks_per_site=8, split=(),
-            deadline=None):
+            deadline=None, path_budget_s=60.0):
     """Run fn() once per feasible decision sequence.
 
     Returns (results, leftover) where leftover is the number of queued prefixes
@@ -305,6 +312,7 @@ def explore(fn, unwind=3, max_paths=200, max_decisions=60, feas_timeout_ms=3000,
                     max_forks_per_site=max_forks_per_site, split=split)
         T.set_ctx(c)
         t0 = time.time()
+        c.path_deadline = t0 + path_budget_s  # watchdog for loops that never reach a decision
         try:
             v = fn(c)
             res = PathResult("ok", v, None, c)
